@@ -4,6 +4,7 @@ package run
 import (
 	"fmt"
 	"runtime/debug"
+	"sync/atomic"
 	"time"
 )
 
@@ -28,9 +29,25 @@ func Guard(budget time.Duration, f func()) (res string, msg string) {
 		}
 		return
 	case <-time.After(budget):
-		return "timeout", "watchdog"
 	}
+	// The budget is generous for the code under test but the machine may be loaded (16 JVMs next door): before a
+	// call is declared hung it gets a grace period of five more budgets. Only the first few hangs of a process
+	// pay for it - once a hang is established the remaining calls are cut at the plain budget.
+	if atomic.LoadInt32(&hangs) < 3 {
+		select {
+		case <-done:
+			if res == "" {
+				res = "ok"
+			}
+			return
+		case <-time.After(5 * budget):
+		}
+	}
+	atomic.AddInt32(&hangs, 1)
+	return "timeout", "watchdog"
 }
+
+var hangs int32
 
 func firstLines(s string, n int) string {
 	c := 0
